@@ -211,6 +211,7 @@ def leaves(scratch=None):
     add(STR, "Contains('a')", lambda: M.Contains("a"), lambda v: "a" in v)
     add(STR, "MatchesRegex('a+$')", lambda: M.MatchesRegex("a+$"), lambda v: re.match("a+$", v) is not None)
     add(STR, "MatchesRegex(re.compile('a+$'))", lambda: M.MatchesRegex(re.compile("a+$")), lambda v: re.match("a+$", v) is not None)
+    add(STR, "MatchesRegex('A')", lambda: M.MatchesRegex("A"), lambda v: re.match("A", v) is not None)  # (same pattern, other flags)
     add(STR, "MatchesRegex('A', re.I)", lambda: M.MatchesRegex("A", re.I), lambda v: re.match("A", v, re.I) is not None)
     add(STR, "HasLength(1)", lambda: M.HasLength(1), lambda v: len(v) == 1)
     add(STR, "DocTestMatches('a...')", lambda: DocTestMatches("a...", 8), lambda v: v.startswith("a"))
